@@ -35,8 +35,12 @@ CheckAddr(e) ==
 CheckLim(e) == (IF e.admitted # e.max THEN <<[prop |-> "C09", clause |-> IF e.admitted > e.max THEN "Burst_concurrent" ELSE "Guaranteed_concurrent"]>> ELSE <<>>)
                \o (IF ~e.other THEN <<[prop |-> "C09", clause |-> "Isolation_concurrent"]>> ELSE <<>>)
 
+\* a client keeps, under concurrent traffic of other clients, the backend it gets when served alone
+CheckAffConc(e) == IF e.seen # <<e.solo>> THEN <<[prop |-> "C06", clause |-> "Affinity_concurrent"]>> ELSE <<>>
+
 Check(e) == CASE e.kind = "wrr" -> CheckWrr(e) [] e.kind = "rrcount" -> CheckRr(e) [] e.kind = "jump" -> CheckJump(e)
               [] e.kind = "jumpsummary" -> CheckJumpSummary(e) [] e.kind = "addr" -> CheckAddr(e) [] e.kind = "limconc" -> CheckLim(e)
+              [] e.kind = "affconc" -> CheckAffConc(e)
               [] OTHER -> <<>>
 Init == l = 1 /\ viol = <<>>
 Next == /\ l <= Len(Tr) /\ l' = l + 1 /\ viol' = Check(Tr[l])
